@@ -137,29 +137,7 @@ def check_bytes(case: typing.Any, ctx: Ctx) -> Info:
     if got[0] == "ok":
         # the returned object belongs to the caller: no mutable part of it occurs twice in it, and scribbling all over it leaves
         # no trace in what the next call returns for the same bytes
-        raw1, _ = guarded(pydsdl.deserialize, t, data, with_delimiter_header=with_header, what="deserialize-again")
-        seen_ids: typing.Dict[int, str] = {}
-
-        def scribble(x: typing.Any, path: str) -> None:
-            if isinstance(x, (dict, list, bytearray)):
-                require(id(x) not in seen_ids, "result-shares-a-mutable-object", "distinct objects", "%s is %s" % (path, seen_ids.get(id(x))), detail)
-                seen_ids[id(x)] = path
-            if isinstance(x, dict):
-                for k_, v_ in list(x.items()):
-                    scribble(v_, path + "." + str(k_))
-                    x[k_] = 123456789 if not isinstance(v_, (dict, list)) else v_
-                x["scribbled"] = True
-            elif isinstance(x, list):
-                for i_, v_ in enumerate(list(x)):
-                    scribble(v_, path + "[%d]" % i_)
-                x.append("scribbled")
-                x.reverse()
-            elif isinstance(x, bytearray):
-                x[:] = b"scribbled"
-
-        scribble(raw1, "result")
-        fresh = cc.deserialize_outcome(t, spec, data, with_header, what="deserialize-after-mutating-earlier-result")
-        require(cc.same_outcome(spec, fresh, got), "result-depends-on-mutation-of-earlier-result", got, fresh, detail)
+        cc.check_result_ownership(t, spec, data, with_header, got, detail)
 
     # zero extension: b and b + zero bytes decode alike, unless b fails on a delimiter header
     if not (got[0] == "error" and got[1] == "delimiter_header"):
